@@ -317,6 +317,8 @@ package block
 //@   observe hq := call Height@1
 //@   observe rb := call retrieveBatch
 //@   observe sh := call SetHeight
+//@   observe ghs := call getHeaderSignature
+//@   observe vl := call Validate
 //@   modifies m.lastState, m.lastBatchData, m.headerCache.seen,
 //@            durable m.store.height, durable m.store.stateAt, durable m.store.hasState, durable m.store.meta["l"], durable m.store.metaHas["l"],
 //@            durable m.store.has[m.store.height + 1], durable m.store.hdrAt[m.store.height + 1], durable m.store.hsigAt[m.store.height + 1],
@@ -334,6 +336,10 @@ package block
 //@   ensures [link] m.store.height == old(m.store.height) + 1 ==> Linked(m, m.store, m.store.height)
 //@   ensures [signed] m.store.height == old(m.store.height) + 1 ==> m.store.hdrAt[m.store.height].proposer == m.store.signerAddrAt[m.store.height]
 //@                       && Signed(pkraw(m.store.signerKeyAt[m.store.height]), Payload(m.store.hdrAt[m.store.height]), m.store.hsigAt[m.store.height])
+// the header that is validated (and then committed) carries the signature the signer produced for it in
+// this very step - also when the block was found pending in the store: what a pending header carries in
+// its signature field is not a signature of that header
+//@   ensures [signs-own-block] vl ==> ghs.count == 1 && ghs.res1 == nil && ghs.seq < vl.seq && val(vl.arg2.Signature) == val(ghs.res0) && HdrOf(vl.arg2) == HdrOf(ghs.arg1)
 //@   ensures [state] m.store.height == old(m.store.height) + 1 ==> m.lastState.LastBlockHeight == m.store.height
 //@                       && val(m.lastState.AppHash) == Exec(old(val(m.lastState.AppHash)), m.store.txsAt[m.store.height])
 //@   ensures [inv-state] !m.store.faulty ==> InvState(m)
